@@ -6,7 +6,7 @@
 From Coq Require Import List NArith ZArith Bool.
 From MirV Require Import Mir.Opcode C15.Defs gen.InsnDescs C15.Validate C15.DocModes C15.TableProofs
   C15.ValidateProofs C15.VarProofs C15.FuncProofs C15.ErrProofs C15.DeclProofs C15.BoundsProofs C15.Examples
-  C15.Safe C15.SafeProofs C15.VarErrProofs.
+  C15.Safe C15.SafeProofs C15.VarErrProofs C15.CallErrProofs.
 Import ListNotations.
 
 (* insn_descs[] is usable as the checker uses it: one row per opcode below MIR_INSN_BOUND, row i
@@ -275,3 +275,20 @@ Theorem call_address_error_code : forall code s, is_call code = true -> shape_wf
   match s with SRef _ => True | _ => check_shape code 1 OP_INT false s = doc_pos_result (CIn VInt) s end.
 Proof. exact VarErrProofs.call_address_error_code. Qed.
 Print Assumptions call_address_error_code.
+
+(* A whole call / inline / jcall that MIR_new_insn_arr created and MIR_finish_func rejects: the code is
+   that of the called address (not an integer value) or of an operand after it, whose class is what
+   the prototype says about its position ([call_class]: result -> lvalue of the result class, scalar
+   parameter -> value of its class, variable part -> any valid operand); for block memory (a block
+   parameter or the variable part) the negative-size / base / index violation. *)
+Theorem call_error_code_specific : forall unspec fc code p f rest e,
+  is_call code = true -> fc_wf fc -> proto_wf p = true ->
+  check_new_insn unspec code (ORef I_proto (Some p) :: f :: rest) = Ok tt ->
+  check_ops unspec fc {| i_code := code; i_ops := ORef I_proto (Some p) :: f :: rest |} = Err e ->
+  (skipped code 1 f = false /\ doc_pos_result (CIn VInt) (shape_of fc f) = Err e)
+  \/ exists k o, nth_error rest k = Some o
+       /\ ((op_is_blk o = true /\ blk_pos_result (shape_of fc o) = Err e)
+           \/ (op_is_blk o = false
+               /\ exists cls, call_class p k = Some cls /\ doc_pos_result cls (shape_of fc o) = Err e)).
+Proof. exact call_error_code_specific_lemma. Qed.
+Print Assumptions call_error_code_specific.
